@@ -26,9 +26,10 @@ def one_run():
     out = {"cwd": os.getcwd()}
     try:
         mode = pt.Mode.Application
-        plain = pt.compileTeal(mod.program(), mode, version=job["version"])
+        asm = bool(job.get("assemble"))
+        plain = pt.compileTeal(mod.program(), mode, version=job["version"], assembleConstants=asm)
         out["plain"] = plain
-        comp = pt.Compilation(mod.program(), mode, version=job["version"])
+        comp = pt.Compilation(mod.program(), mode, version=job["version"], assemble_constants=asm)
         res = comp.compile(with_sourcemap=True, annotate_teal=job["annotate"], annotate_teal_headers=job["headers"], annotate_teal_concise=job["concise"])
         out["with_map"] = res.teal
         sm = res.sourcemap
